@@ -1175,6 +1175,8 @@ func (rr *rpRunner) runs(cfg config, mi *msgInfo, r *rng) {
 
 func engineReflectProg(cfg config, o *out) {
 	schemas := loadSchemas()
+	cc := newClassCov("reflectprog")
+	defer cc.emit(o)
 	for _, si := range schemas {
 		o.raw("SCHEMA\t" + si.id + "\t=\t" + si.sexp())
 		r := newRng(cfg.seed, "reflectprog/"+si.id)
@@ -1213,6 +1215,7 @@ func engineReflectProg(cfg config, o *out) {
 			if all {
 				o.kase("REFLECTPROG", append(append([]string{}, args...), "all", "eqb"), "same")
 				o.count("types_fully_translated")
+				cc.message(si, mi)
 			}
 		}
 		// the interpreter on the translated methods against the running code
